@@ -27,6 +27,10 @@ import (
 var woKinds = []string{"same-day", "next-day", "next-month", "other-iface"}
 
 func woHistory(code, n int) []fixture.Block {
+	// second half of the case space: the second write-out carries no flows at all (an idle
+	// interval: no column file is touched, only the metadata is rewritten)
+	emptySecond := (code/woHistories(n))%2 == 1
+	code %= woHistories(n)
 	var out []fixture.Block
 	iface, ts := "eth0", tA1
 	recsets := [][]fixture.Rec{{r4a, r6a, r4c}, {r4b, r6b}, {r4a, r4d, r6c, r6d}, {r6a}, {r4e, r4a}}
@@ -56,6 +60,9 @@ func woHistory(code, n int) []fixture.Block {
 			}
 		}
 		rs := recsets[i%len(recsets)]
+		if emptySecond && i == 1 {
+			rs = nil
+		}
 		scaled := make([]fixture.Rec, len(rs))
 		for j, r := range rs {
 			scaled[j] = scale(r, uint64(i+1))
@@ -65,10 +72,19 @@ func woHistory(code, n int) []fixture.Block {
 	return out
 }
 
+// woHistories is the number of distinct write-out kind sequences of length n.
+func woHistories(n int) int {
+	k := 1
+	for i := 1; i < n; i++ {
+		k *= 4
+	}
+	return k
+}
+
 func woDescribe(h []fixture.Block) string {
 	var p []string
 	for _, b := range h {
-		p = append(p, fmt.Sprintf("%s@%d", b.Iface, b.TS))
+		p = append(p, fmt.Sprintf("%s@%d(%d flows)", b.Iface, b.TS, len(b.Recs)))
 	}
 	return strings.Join(p, " ")
 }
@@ -107,6 +123,16 @@ func dbMatches(dbPath string, want []fixture.Block, alsoIfaces ...string) string
 		}
 		if len(res.Rows) != 0 {
 			return fmt.Sprintf("query rows: %d unexpected rows on %s, e.g. %s", len(res.Rows), iface, res.Rows[0].String())
+		}
+		// a block without flows is invisible to queries: the listing must not count it either
+		if wm, err := goDB.NewDBWorkManager(goDB.NewMetadataQuery(), dbPath, iface, 1); err == nil {
+			im, err := wm.ReadMetadata(0, 1<<40)
+			if err != nil {
+				return "listing of " + iface + " failed: " + err.Error()
+			}
+			if im.Stats != (gpfile.Stats{}) {
+				return fmt.Sprintf("listing of %s shows %+v, nothing is committed there", iface, im.Stats)
+			}
 		}
 	}
 	if len(ifs) == 0 {
@@ -282,12 +308,12 @@ var _ = types.Counters{}
 func init() {
 	register("C04", &explore.Scenario{
 		ID: "C04", Name: "kill at every mutating file-system step of every write-out", Level: "fault_enumeration",
-		Rule: "cases = all histories of 3 (thorough 4) write-outs where each next write-out is {next block same day, first block next day, first day of next month, other interface}: 16 (64) histories; the real DBWriter.Write runs over the vos shim; before EVERY mutating step (mkdir, open-create, write, chmod, rename, unlink) of every write-out one deviation = the process is killed there (thorough: also inside every write after 1..n-1 bytes for writes <=64 B, else after 1, n/2, n-1 bytes; and a second kill in a later write-out, bound 2). After the kill the tree is inspected without the shim: the in-flight block is visible or not (atomic), the query engine (raw+time) and ReadMetadata succeed and equal the reference for exactly the visible blocks; then the remaining write-outs run and are checked again. non-trivial = every execution with a kill, distinct by (history, write-out, step)",
+		Rule: "cases = all histories of 3 (thorough 4) write-outs where each next write-out is {next block same day, first block next day, first day of next month, other interface}: 16 (64) histories, each also with a second write-out that carries no flows; the real DBWriter.Write runs over the vos shim; before EVERY mutating step (mkdir, open-create, write, chmod, rename, unlink) of every write-out one deviation = the process is killed there (thorough: also inside every write after 1..n-1 bytes for writes <=64 B, else after 1, n/2, n-1 bytes; and a second kill in a later write-out, bound 2). After the kill the tree is inspected without the shim: the in-flight block is visible or not (atomic), the query engine (raw+time) and ReadMetadata succeed and equal the reference for exactly the visible blocks; then the remaining write-outs run and are checked again. non-trivial = every execution with a kill, distinct by (history, write-out, step)",
 		Cases: func(t string) int {
 			if t == "thorough" {
-				return 64
+				return 128
 			}
-			return 16
+			return 32
 		},
 		Bound: func(t string) int {
 			if t == "thorough" {
@@ -372,8 +398,8 @@ type syscallErrno = syscall.Errno
 func init() {
 	register("C05", &explore.Scenario{
 		ID: "C05", Name: "errno injection at every file-system call of every write-out", Level: "fault_enumeration",
-		Rule:  "cases = the 16 histories of 3 write-outs of C04; at EVERY file-system step (mutating or not: stat, readdir, open, read, mkdir, write, close, chmod, rename, unlink) of every write-out one deviation = that call fails with one of the errnos it can return (ENOSPC, EIO, EACCES/EPERM; writes also as a short write + ENOSPC); at most one fault per write-out, bound 1 (thorough 2: faults in two different write-outs). Oracle: Write returned an error => the database read back through the query engine and the listing equals the previously committed data; Write returned nil => committed data + this block; later fault-free write-outs succeed and the final database equals the reference without the failed write-outs. non-trivial = executions with an injected fault, distinct by (history, write-out, step, errno)",
-		Cases: func(t string) int { return 16 },
+		Rule:  "cases = the 32 histories of 3 write-outs of C04 (16 kind sequences x second write-out with / without flows); at EVERY file-system step (mutating or not: stat, readdir, open, read, mkdir, write, close, chmod, rename, unlink) of every write-out one deviation = that call fails with one of the errnos it can return (ENOSPC, EIO, EACCES/EPERM; writes also as a short write + ENOSPC); at most one fault per write-out, bound 1 (thorough 2: faults in two different write-outs). Oracle: Write returned an error => the database read back through the query engine and the listing equals the previously committed data; Write returned nil => committed data + this block; later fault-free write-outs succeed and the final database equals the reference without the failed write-outs. non-trivial = executions with an injected fault, distinct by (history, write-out, step, errno)",
+		Cases: func(t string) int { return 32 },
 		Bound: func(t string) int {
 			if t == "thorough" {
 				return 2
